@@ -216,6 +216,23 @@ def roundtrip_contract(pkg, components, class_name, module_name, label):
 
 # ---- C10 / C14: what happens at the edges of the wire domain ----------------------------------------------------------
 
+def schema_values(components, schema):
+    """the listed values of an enum / const schema (through one $ref / single-member wrapper), or None"""
+    s = schema
+    for _ in range(4):
+        if "$ref" in s:
+            s = components[s["$ref"].rsplit("/", 1)[1]]
+        elif "allOf" in s and len(s["allOf"]) == 1:
+            s = s["allOf"][0]
+        else:
+            break
+    if "enum" in s:
+        return list(s["enum"])
+    if "const" in s:
+        return [s["const"]]
+    return None
+
+
 def tristate_contract(pkg, components, class_name, module_name, kind, required, has_default, label, outside=True):
     """absent / null / present for the single property `a-prop` of a schematic model (C10), and rejection of values
     outside an enum / const (C14)."""
@@ -243,6 +260,7 @@ def tristate_contract(pkg, components, class_name, module_name, kind, required, 
         wb, rs = resolved(I)
         src = SDict()
         state = "absent"
+        outside_term = None
         if I.branch_free():
             state = "absent"
         elif I.branch_free():
@@ -262,8 +280,8 @@ def tristate_contract(pkg, components, class_name, module_name, kind, required, 
                 from pyvc.symexec import Infeasible
                 raise Infeasible()
             # ANY JSON scalar that is not one of the listed values: a string, an integer or a number that equals none of them
-            # (2.0 is the JSON number 2), and -- for string lists -- a boolean.  (A boolean offered to an integer list is left out:
-            # python's True == 1 makes IntEnum(True) the member 1; see DESIGN 5.2.)
+            # (2.0 is the JSON number 2), or a boolean (for integer lists python's True == 1 makes IntEnum(True) the member 1: that
+            # is known finding C14-K3, the restricted form of the clause leaves booleans out for integer lists)
             from pyvc.symexec import SV as _SV
             Z = I.Z
             t = _z3.Const("outside_value", Z.JV)
@@ -273,14 +291,14 @@ def tristate_contract(pkg, components, class_name, module_name, kind, required, 
             alts = [_z3.And(r["str"](t), *[acc["s"](t) != _z3.StringVal(v) for v in strs]),
                     _z3.And(r["int"](t), *[acc["i"](t) != v for v in ints]),
                     _z3.And(r["flt"](t), acc["fk"](t) == Z.fk["fin"], *[acc["r"](t) != v for v in ints])]
-            if not ints:
-                alts.append(r["bool"](t))
+            alts.append(r["bool"](t))       # a boolean is never a listed value (for integer lists: known finding C14-K3)
             I.assume(_z3.Or(*alts))
             src.items["a-prop"] = _SV(t)
+            outside_term = t
 
         def target(I, args, kwargs):
             return I.call(I.get_attr(cls, "from_dict"), [src], {})
-        return SFunc("model", target), [], {}, {"state": state, "nullable": nullable(rs), "mod": mod}
+        return SFunc("model", target), [], {}, {"state": state, "nullable": nullable(rs), "mod": mod, "outside_term": outside_term}
 
     def attr(ctx):
         return ctx.value.fields["a_prop"]
@@ -309,6 +327,11 @@ def tristate_contract(pkg, components, class_name, module_name, kind, required, 
     if kind == "nullable-enum":
         known = ["C14-K2-nullable-enum-passthrough"]
         restrict = lambda inputs, I: z3.BoolVal(inputs["state"] != "outside")
+    elif any(isinstance(v, int) and not isinstance(v, bool) for v in (schema_values(components, schema) or [])):
+        # integer lists: a boolean is looked up with python equality (False == 0, True == 1)
+        known = ["C14-K3-boolean-decoded-as-integer-member"]
+        restrict = lambda inputs, I: (z3.BoolVal(True) if inputs.get("outside_term") is None
+                                      else z3.Not(I.Z.rec["bool"](inputs["outside_term"])))
     else:
         known, restrict = [], None
     cl = Clause("absent-null-present-outside", clause, any_outcome=True, native="result is not None", known=known, restrict=restrict,
